@@ -751,6 +751,16 @@ class Interp:
                 self.event("setattr", stmt, st, attr=target.attr, obj=ov.obj, value=v)
             else:
                 self.event("setattr-unknown", stmt, st, attr=target.attr, value=v, recv=ov)
+                if ov.kind == "arr" and target.attr in ("shape", "dtype", "strides"):
+                    # a.shape = ... re-lays-out the array object itself: every holder of it (the caller) sees the new shape
+                    self.event("mutate", stmt, st, how="set-" + target.attr, target=ov, value=v, targetsrc=ast.unparse(target.value))
+                    if target.attr == "shape" and ov.shape is not None:
+                        dims_v = list(v.items) if v.kind in ("tuple", "list") and v.items is not None else [v]
+                        try:
+                            new = self.api.reshape_to(self, ov, dims_v, st, stmt)
+                            self.rebind(ov, new.replace(orig=ov.orig, loc=ov.loc), st)
+                        except Exception:
+                            pass
         elif isinstance(target, ast.Subscript):
             base = self.eval(target.value, st)
             idx = self.eval_index(target.slice, st)
